@@ -1225,7 +1225,10 @@ func (ex *Exec) witness(st *State, label string) {
 	if r != Sat {
 		return
 	}
-	site, fn := ex.repoSite(st)
+	site, fn := "end of path", ""
+	if len(st.frames) > 0 {
+		site, fn = ex.repoSite(st)
+	}
 	w := &Violation{Label: label, Site: site, Func: fn, PCSize: len(st.pc)}
 	if vals != nil || len(want) == 0 {
 		w.Model = ex.modelOf(st, vals)
